@@ -305,6 +305,39 @@ struct CableSpringElem : ContactElemBase {
     Json describe() override { return Json::obj().set("b1", b1).set("b2", b2).set("via", bv).set("k", kk).set("L0", L0).set("c", cc).set("L", Lprobe); }
 };
 
+// =========================================================================== CableSpan (CableSubsystem): C13 only
+// Not a Force element: CableSpan::applyBodyForces(state, tension, F) is the documented way to turn a cable tension
+// into body forces. Straight spans and spans through a via point on a third body (wrapping geometry is C45's).
+struct CableSpanElem : ContactElemBase {
+    std::unique_ptr<CableSubsystem> cables; CableSpan span; Vec3 s1, s2, sv; int bv = -1; double T = 0;
+    CableSpanElem() { name = "CableSpan"; hasReference = false; reportsPE = false; evalStage = Stage::Velocity; }
+    bool build(FCase& k, const State&, Rng& r, int attachCls, int variant, std::string&) override {
+        k.pickPair(r, attachCls, b1, b2, attach);
+        s1 = randVec3(r, 1.0); s2 = randVec3(r, 1.0); if (b1 == b2) while ((s2 - s1).norm() < 0.3) s2 = randVec3(r, 1.0);
+        cables.reset(new CableSubsystem(k.m.sys));
+        span = CableSpan(*cables, MobilizedBodyIndex(b1), s1, MobilizedBodyIndex(b2), s2);
+        if (variant % 2) { bv = r.integer(0, k.numMobile()); sv = randVec3(r, 1.0); span.addViaPoint(MobilizedBodyIndex(bv), sv); }
+        T = variant == 4 ? 0.0 : r.logUni(1, 500);
+        regime = std::string(bv >= 0 ? "via" : "straight") + (T == 0 ? "/slack" : "/taut");
+        return true;
+    }
+    bool precond(FCase& k, const State& s, std::string& why) override {
+        Vec3 p1 = k.mob(b1).getBodyTransform(s) * s1, p2 = k.mob(b2).getBodyTransform(s) * s2;
+        if (bv >= 0) { Vec3 pv = k.mob(bv).getBodyTransform(s) * sv; if ((pv - p1).norm() < 0.05 || (p2 - pv).norm() < 0.05) { why = "cable-coincident-points"; return false; } }
+        else if ((p2 - p1).norm() < 0.05) { why = "cable-coincident-points"; return false; }
+        return true;
+    }
+    void observe(FCase& k, const State& s, Obs& o) override {
+        o.F.resize(k.nb); o.F = SpatialVec(Vec3(0), Vec3(0)); o.f.resize(k.nu); o.f = 0;
+        span.applyBodyForces(s, T, o.F);
+    }
+    bool pureTwoBody() override { return bv < 0; }
+    void actionScale(FCase& k, const State& s, const Ref*, double& aF, double& aM) override {
+        aF += 4 * T; aM += 4 * T * (k.mob(b1).getBodyTransform(s).p().norm() + k.mob(b2).getBodyTransform(s).p().norm() + 3);
+    }
+    Json describe() override { return Json::obj().set("b1", b1).set("b2", b2).set("via", bv).set("tension", T); }
+};
+
 inline std::unique_ptr<Elem> makeContactElem(int et) {
     switch (et) {
     case E_HuntCrossley: return std::unique_ptr<Elem>(new HuntCrossleyElem());
@@ -313,6 +346,7 @@ inline std::unique_ptr<Elem> makeContactElem(int et) {
     case E_SmoothSphere: return std::unique_ptr<Elem>(new SmoothSphereElem());
     case E_ExpSpring: return std::unique_ptr<Elem>(new ExpSpringElem());
     case E_CableSpring: return std::unique_ptr<Elem>(new CableSpringElem());
+    case E_CableSpan: return std::unique_ptr<Elem>(new CableSpanElem());
     default: return nullptr;
     }
 }
